@@ -19,10 +19,12 @@ if REPO not in sys.path:
 
 
 def scratch_cwd():
-    d = os.path.join(VERIF, '.work', 'cwd-main-%d' % os.getpid())
+    root = os.path.join(VERIF, '.work', 'run-%d' % os.getpid())
+    os.environ['VERIF_RUNDIR'] = root
+    d = os.path.join(root, 'cwd-main')
     os.makedirs(d, exist_ok=True)
     os.chdir(d)
-    return d
+    return root
 
 
 def cmd_setup():
@@ -37,8 +39,10 @@ def cmd_setup():
                 bad += 1
                 print('SANY FAILED', f)
                 print(out[-2000:])
-    scratch_cwd()
+    d = scratch_cwd()
     import maltoolbox  # noqa: F401  (import check of the tree under test)
+    os.chdir(VERIF)
+    shutil.rmtree(d, ignore_errors=True)
     print('setup: %s' % ('ok' if not bad else '%d modules failed' % bad))
     return 0 if not bad else 2
 
@@ -65,18 +69,17 @@ def cmd_check(pid, tier):
     finally:
         os.chdir(VERIF)
         shutil.rmtree(d, ignore_errors=True)
-        # worker scratch dirs
-        wd = os.path.join(VERIF, '.work')
-        for x in os.listdir(wd):
-            if x.startswith('cwd-') or x.startswith('tlc-'):
-                shutil.rmtree(os.path.join(wd, x), ignore_errors=True)
 
 
 def cmd_replay(path):
     from harness import replaytool
     path = os.path.abspath(path)
-    scratch_cwd()
-    return replaytool.replay(path)
+    d = scratch_cwd()
+    try:
+        return replaytool.replay(path)
+    finally:
+        os.chdir(VERIF)
+        shutil.rmtree(d, ignore_errors=True)
 
 
 def main():
